@@ -18,6 +18,10 @@ PRELUDE = '''Binde "Duden/Ausgabe" ein.
 Binde "Duden/Listen" ein.
 Binde "Duden/Texte" ein.
 Binde "Duden/Sortierung" ein.
+Binde "Duden/Mathe" ein.
+Binde "Duden/Zahlen" ein.
+Binde "Duden/Statistik" ein.
+Binde "Duden/Zeichen" ein.
 
 Die Funktion zt mit dem Parameter t vom Typ Text, gibt nichts zurück, macht:
 	Schreibe "T( ".
@@ -53,10 +57,13 @@ Die Funktion zlc mit dem Parameter l vom Typ Buchstaben Liste, gibt nichts zurü
 Und kann so benutzt werden:
 	"zeige die buchstaben <l>"
 '''
+cp = lambda s: [ord(c) for c in s]
 TYN = {"Z": ("Zahl", "Die"), "W": ("Wahrheitswert", "Der"), "C": ("Buchstabe", "Der"), "T": ("Text", "Der"), "LZ": ("Zahlen Liste", "Die"), "LT": ("Text Liste", "Die"), "LC": ("Buchstaben Liste", "Die")}
 
 
 def lit(t, v):
+    if t == "C" and (v < 32 or v == 127 or 128 <= v < 160):
+        return "(%d als Buchstabe)" % v
     if t == "Z":
         return str(v) if v >= 0 else "(-%d)" % -v
     if t == "W":
@@ -135,8 +142,30 @@ FUNCS = [
     ("jointl", ["LT", "C"], "T", "({0!} mit dem Trennzeichen {1} zum Text verbunden)", None), ("joinzl", ["LZ", "C"], "T", "({0!} mit dem Trennzeichen {1} zum Text verbunden)", None),
     ("hamming", ["T", "T"], "Z", "(die Hamming-Distanz zwischen {0!} und {1!})", None), ("levenshtein", ["T", "T"], "Z", "(die Levenshtein-Distanz zwischen {0!} und {1!})", None),
     ("compare", ["T", "T"], "Z", "({0!} mit {1!} verglichen)", None),
+    # numbers
+    ("max2", ["Z", "Z"], "Z", "(die größere Zahl von {0} und {1})", None), ("max3", ["Z", "Z", "Z"], "Z", "(die größere Zahl von {0}, {1} und {2})", None),
+    ("min2", ["Z", "Z"], "Z", "(die kleinere Zahl von {0} und {1})", None), ("min3", ["Z", "Z", "Z"], "Z", "(die kleinere Zahl von {0}, {1} und {2})", None),
+    ("clamp", ["Z", "Z", "Z"], "Z", "({0} zwischen {1} und {2})", None), ("sign", ["Z"], "Z", "(das Vorzeichen von {0})", None),
+    ("gcd", ["Z", "Z"], "Z", "(der größte gemeinsame Teiler von {0} und {1})", None), ("lcm", ["Z", "Z"], "Z", "(das kleinste gemeinsame Vielfache von {0} und {1})", None),
+    ("divisible", ["Z", "Z"], "W", "({0} durch {1} teilbar ist)", None), ("notdivisible", ["Z", "Z"], "W", "({0} nicht durch {1} teilbar ist)", None),
+    ("primefactors", ["Z"], "LZ", "(die Primfaktoren von {0})", None), ("divisors", ["Z"], "LZ", "(alle Teiler von {0})", None),
+    ("even", ["Z"], "W", "({0} eine gerade Zahl ist)", None), ("noteven", ["Z"], "W", "({0} keine gerade Zahl ist)", None), ("factorial", ["Z"], "Z", "({0} Fakultät)", None),
+    ("maxlist", ["LZ"], "Z", "(die größte Zahl in {0!})", None), ("minlist", ["LZ"], "Z", "(die kleinste Zahl in {0!})", None), ("dozen", ["Z"], "Z", "({0} Dutzend)", None),
+    ("hex2num", ["T"], "Z", "(die Hexadezimalzahl {0!})", None), ("num2hex", ["Z"], "T", "({0} in Hexadezimal)", None),
+    # characters
+    ("isspace", ["C"], "W", "({0} ein leeres Zeichen ist)", None), ("isblank", ["C"], "W", "({0} ein Leerzeichen ist)", None), ("isupper", ["C"], "W", "({0} ein großer Buchstabe ist)", None),
+    ("islower", ["C"], "W", "({0} ein kleiner Buchstabe ist)", None), ("isdigit", ["C"], "W", "({0} eine Ziffer ist)", None), ("iscntrl", ["C"], "W", "({0} ein Kontrollzeichen ist)", None),
+    ("islatin", ["C"], "W", "({0} ein lateinischer Buchstabe ist)", None), ("islatinnum", ["C"], "W", "({0} ein lateinischer Buchstabe oder eine Zahl ist)", None),
+    ("isgerman", ["C"], "W", "({0} ein deutscher Buchstabe ist)", None), ("isgermannum", ["C"], "W", "({0} ein deutscher Buchstabe oder eine Zahl ist)", None),
+    ("toupper", ["C"], "C", "({0} als großer Buchstabe)", None), ("tolower", ["C"], "C", "({0} als kleiner Buchstabe)", None),
+    ("asciichar", ["Z"], "C", "(der ASCII Zeichen mit der Nummer {0})", None), ("asciigt", ["C", "C"], "W", "(der ASCII-Wert von {0} größer als {1})", None),
+    ("asciilt", ["C", "C"], "W", "(der ASCII-Wert von {0} kleiner als {1})", None),
 ]
-cp = lambda s: [ord(c) for c in s]
+NUMFNS = {"max2", "max3", "min2", "min3", "clamp", "sign", "gcd", "lcm", "divisible", "notdivisible", "primefactors", "divisors", "even", "noteven", "factorial", "dozen", "num2hex", "asciichar"}
+CHARFNS = {"isspace", "isblank", "isupper", "islower", "isdigit", "iscntrl", "islatin", "islatinnum", "isgerman", "isgermannum", "toupper", "tolower", "asciigt", "asciilt"}
+NUMVALS = [-7, -1, 0, 1, 2, 3, 4, 6, 9, 12, 16, 17, 30, 97, 255, 360]
+CHARVALS = [9, 10, 13, 31, 32, 47, 48, 57, 58, 64, 65, 90, 91, 96, 97, 122, 123, 191, 192, 196, 214, 215, 216, 220, 222, 223, 228, 246, 247, 248, 252, 255]
+HEXVALS = [cp("0"), cp("ff"), cp("FF"), cp("1aB"), cp("7fffff"), cp("10"), cp("g"), cp("")]
 VALUES = {
     "Z": [-1, 0, 1, 2, 3, 4, 5, 7],
     "W": [True, False],
@@ -151,8 +180,9 @@ VALUES = {
 def calls(tier, rng):
     out = []
     for fn, ats, rt, tpl, mut in FUNCS:
-        combos = list(itertools.product(*[VALUES[t] for t in ats]))
-        cap = 25 if tier == "quick" else 200
+        vals = [(NUMVALS if (fn in NUMFNS and t == "Z") else CHARVALS if (fn in CHARFNS and t == "C") else HEXVALS if fn == "hex2num" else VALUES[t]) for t in ats]
+        combos = list(itertools.product(*vals))
+        cap = 40 if tier == "quick" else 250
         if len(combos) > cap:
             combos = rng.sample(combos, cap)
         for c in combos:
@@ -226,7 +256,7 @@ def run(tier):
 
     def one(g):
         src = PRELUDE + "\n" + "\n".join("\n".join(render_call(k, c)) for k, c in enumerate(g)) + "\n"
-        return g, src, ddp.run_forked(runner, src, len(g), opts=opts)
+        return g, src, ddp.run_forked(runner, src, len(g), opts=opts, dispatch=True)
     pending, done = groups, []
     while pending:
         nxt = []
